@@ -12,37 +12,21 @@ CONSTANTS ReqP, ReqN,          \* BLE request: plaintext fragment sizes x body l
           CoapNsA, OkLensA, ErrStA, ErrLensA, FaultLensA,      \* CoAP batches: sizes x item variants (A)
           CoapNsB, OkLensB, ErrStB, ErrLensB, FaultLensB       \* (B)
 
-\* body lengths around every fragment boundary of size p, and the largest
-Boundary(p) ==
-    { n \in ( {0, 1, RealMax - 1, RealMax}
-              \cup { (p - HDR_FIRST) + d : d \in {0, 1} } \cup { (p - HDR_FIRST) - 1 }
-              \cup UNION { { (p - HDR_FIRST) + k * (p - HDR_CONT) + d : d \in {0, 1} } \cup { (p - HDR_FIRST) + k * (p - HDR_CONT) - 1 } : k \in 1..3 } )
-        : n <= RealMax }
+\* body lengths around every fragment boundary (first fragment carries a, continuations b), and the largest
+Around(a, b, lo) ==
+    { n \in ( {lo, 1, RealMax - 1, RealMax} \cup { a + d : d \in {0, 1} } \cup { a - 1 }
+              \cup UNION { { a + k * b + d : d \in {0, 1} } \cup { a + k * b - 1 } : k \in 1..3 } )
+        : n >= lo /\ n <= RealMax }
+Boundary(p)     == Around(p - HDR_FIRST, p - HDR_CONT, 0)
+RespBoundary(q) == Around(q - RSP_HDR, q - HDR_CONT, 1)
+CtrsFor(e) == IF e = 1 THEN Ctr0s ELSE {0}
 
-ReqCases ==
-    { [part |-> "req", p |-> p, enc |-> e, n |-> n, ctr0 |-> IF e = 1 THEN c ELSE 0]
-        : p \in ReqP, n \in ReqN, e \in {0, 1}, c \in Ctr0s }
-    \cup UNION { { [part |-> "req", p |-> p, enc |-> e, n |-> n, ctr0 |-> IF e = 1 THEN c ELSE 0]
-                    : n \in Boundary(p), e \in {0, 1}, c \in Ctr0s } : p \in RealP }
-
-RespOf(m, st, short, split, f, e, c) ==
+ReqCase(p, e, n, c) == [part |-> "req", p |-> p, enc |-> e, n |-> n, ctr0 |-> c]
+RespCase(m, st, short, split, f, e, c) ==
     [part |-> "resp", m |-> m, st |-> st, short |-> short, split |-> split, fault |-> f.fault, fpos |-> f.fpos,
-     enc |-> e, ctr0 |-> IF e = 1 THEN c ELSE 0]
-
-RespBoundary(q) ==
-    { m \in ( {1, RealMax}
-              \cup { (q - RSP_HDR) + d : d \in {0, 1} } \cup { (q - RSP_HDR) - 1 }
-              \cup UNION { { (q - RSP_HDR) + k * (q - HDR_CONT) + d : d \in {0, 1} } \cup { (q - RSP_HDR) + k * (q - HDR_CONT) - 1 } : k \in 1..2 } )
-        : m >= 1 /\ m <= RealMax }
+     enc |-> e, ctr0 |-> c]
 \* for long bodies the faults sit in the second and in the last fragment
 FewFaults(split) == { f \in Faults(split) : f.fpos \in {0, 1, 2, Len(split)} }
-
-RespCases ==
-    UNION { UNION { { RespOf(m, st, 0, sp, f, e, c) : f \in Faults(sp), st \in RespSt, e \in {0, 1}, c \in Ctr0s }
-                    : sp \in Splits(m) } : m \in RespM }
-    \cup { RespOf(0, st, 1, <<0>>, f, e, c) : f \in Faults(<<0>>), st \in RespSt, e \in {0, 1}, c \in Ctr0s }
-    \cup UNION { UNION { { RespOf(m, st, 0, SplitBy(m, q), f, e, c) : f \in FewFaults(SplitBy(m, q)), st \in RespSt, e \in {0, 1}, c \in Ctr0s }
-                         : m \in RespBoundary(q) } : q \in RealQ }
 
 Variants(okL, errS, errL, fltL) ==
     { [oc |-> "ok", s |-> 0, len |-> l] : l \in okL }
@@ -51,14 +35,24 @@ Variants(okL, errS, errL, fltL) ==
 VA == Variants(OkLensA, ErrStA, ErrLensA, FaultLensA)
 VB == Variants(OkLensB, ErrStB, ErrLensB, FaultLensB)
 
+\* (nested quantifiers instead of one big set: TLC's UNION is quadratic)
 Init ==
-    \/ \E c \in ReqCases : ReqInit(c)
-    \/ \E c \in RespCases : RespInit(c)
+    \/ \E p \in ReqP, n \in ReqN, e \in {0, 1} : \E c \in CtrsFor(e) : ReqInit(ReqCase(p, e, n, c))
+    \/ \E p \in RealP, e \in {0, 1} : \E n \in Boundary(p), c \in CtrsFor(e) : ReqInit(ReqCase(p, e, n, c))
+    \/ \E m \in RespM, st \in RespSt, e \in {0, 1} : \E sp \in Splits(m), c \in CtrsFor(e) : \E f \in Faults(sp) :
+            RespInit(RespCase(m, st, 0, sp, f, e, c))
+    \/ \E st \in RespSt, e \in {0, 1} : \E c \in CtrsFor(e), f \in Faults(<<0>>) : RespInit(RespCase(0, st, 1, <<0>>, f, e, c))
+    \/ \E q \in RealQ, st \in RespSt, e \in {0, 1} : \E m \in RespBoundary(q), c \in CtrsFor(e) : \E f \in FewFaults(SplitBy(m, q)) :
+            RespInit(RespCase(m, st, 0, SplitBy(m, q), f, e, c))
     \/ \E n \in CoapNsA : \E its \in [1..n -> VA] : CoapInit([part |-> "coap", items |-> its])
     \/ \E n \in CoapNsB : \E its \in [1..n -> VB] : CoapInit([part |-> "coap", items |-> its])
 Spec == Init /\ [][Next]_vars
 
 \* ---------------------------------------------------------------------- export
+RECURSIVE Cat(_)                 \* concatenation of a sequence of sequences
+Cat(ss) == IF ss = << >> THEN << >> ELSE Head(ss) \o Cat(Tail(ss))
+Over(S, Op(_)) == LET s == SetToSeq(S) IN Cat([k \in 1..Len(s) |-> Op(s[k])])
+
 \* expected request layout: on-air length of every write
 RECURSIVE ReqLens(_, _, _)
 ReqLens(c, off, first) ==
@@ -66,7 +60,9 @@ ReqLens(c, off, first) ==
                    ELSE << HDR_FIRST + Min(c.n, c.p - HDR_FIRST) + TAG * c.enc >> \o ReqLens(c, Min(c.n, c.p - HDR_FIRST), FALSE))
     ELSE IF off >= c.n THEN << >>
     ELSE << HDR_CONT + Min(c.n - off, c.p - HDR_CONT) + TAG * c.enc >> \o ReqLens(c, off + Min(c.n - off, c.p - HDR_CONT), FALSE)
-
+ReqRec(c) == [part |-> "req", p |-> c.p, enc |-> c.enc, n |-> c.n, ctr0 |-> c.ctr0, lens |-> ReqLens(c, 0, TRUE)]
+RespRec(c) == [part |-> "resp", m |-> c.m, st |-> c.st, short |-> c.short, split |-> c.split, fault |-> c.fault,
+               fpos |-> c.fpos, enc |-> c.enc, ctr0 |-> c.ctr0, exp |-> IF c.fault = "none" THEN "done" ELSE "rejected"]
 CoapExp(its) == [i \in 1..Len(its) |->
                     LET it == its[i] IN
                     CASE it.oc = "ok"  -> <<"ok", 0, i, it.len>>
@@ -74,20 +70,23 @@ CoapExp(its) == [i \in 1..Len(its) |->
                       [] it.oc = "tid" -> <<"tid", 256, 0, 0>>
                       [] it.oc = "ctl" -> <<"ctl", 257, 0, 0>>]
 CoapRec(its) == [part |-> "coap", items |-> [i \in 1..Len(its) |-> <<its[i].oc, its[i].s, its[i].len>>], exp |-> CoapExp(its)]
-RECURSIVE SeqOfFcns(_, _)
-CoapSeq(ns, V) == LET RECURSIVE G(_)
-                      G(s) == IF s = {} THEN << >>
-                              ELSE LET n == CHOOSE x \in s : TRUE IN
-                                   SetToSeq({ CoapRec(its) : its \in [1..n -> V] }) \o G(s \ {n})
-                  IN G(ns)
-SeqOfFcns(a, b) == << >>
+
+ReqSeq ==
+    LET A(p) == SetToSeq({ ReqRec(ReqCase(p, e, n, c)) : n \in ReqN, e \in {0, 1}, c \in Ctr0s } )
+        B(p) == SetToSeq({ ReqRec(ReqCase(p, e, n, c)) : n \in Boundary(p), e \in {0, 1}, c \in Ctr0s } )
+        Fix(s) == SelectSeq(s, LAMBDA r : r.enc = 1 \/ r.ctr0 = CHOOSE x \in Ctr0s : \A y \in Ctr0s : x <= y)
+    IN Over(ReqP, LAMBDA p : Fix(A(p))) \o Over(RealP, LAMBDA p : Fix(B(p)))
+RespSeq ==
+    LET ES == { <<e, c>> : e \in {0, 1}, c \in Ctr0s }
+        Norm(ec) == IF ec[1] = 1 THEN ec[2] ELSE 0
+        A(m) == Over(Splits(m), LAMBDA sp : SetToSeq({ RespRec(RespCase(m, st, 0, sp, f, ec[1], Norm(ec))) : f \in Faults(sp), st \in RespSt, ec \in ES }))
+        S0 == SetToSeq({ RespRec(RespCase(0, st, 1, <<0>>, f, ec[1], Norm(ec))) : f \in Faults(<<0>>), st \in RespSt, ec \in ES })
+        B(q) == Over(RespBoundary(q), LAMBDA m : SetToSeq({ RespRec(RespCase(m, st, 0, SplitBy(m, q), f, ec[1], Norm(ec)))
+                                                             : f \in FewFaults(SplitBy(m, q)), st \in RespSt, ec \in ES }))
+    IN Over(RespM, A) \o S0 \o Over(RealQ, B)
+CoapSeq(ns, V) == Over(ns, LAMBDA n : SetToSeq({ CoapRec(its) : its \in [1..n -> V] }))
 
 ExportCases ==
     /\ TLCGet("stats").generated >= 0
-    /\ ndJsonSerialize(IOEnv.CASES_OUT,
-          SetToSeq({ [part |-> "req", p |-> c.p, enc |-> c.enc, n |-> c.n, ctr0 |-> c.ctr0, lens |-> ReqLens(c, 0, TRUE)] : c \in ReqCases })
-          \o SetToSeq({ [part |-> "resp", m |-> c.m, st |-> c.st, short |-> c.short, split |-> c.split, fault |-> c.fault,
-                         fpos |-> c.fpos, enc |-> c.enc, ctr0 |-> c.ctr0,
-                         exp |-> IF c.fault = "none" THEN "done" ELSE "rejected"] : c \in RespCases })
-          \o CoapSeq(CoapNsA, VA) \o CoapSeq(CoapNsB, VB))
+    /\ ndJsonSerialize(IOEnv.CASES_OUT, ReqSeq \o RespSeq \o CoapSeq(CoapNsA, VA) \o CoapSeq(CoapNsB, VB))
 =============================================================================
